@@ -101,6 +101,8 @@ def server_entry(command, args, envsel, envval, tsel, extra_key):
         d["env"] = {"MY_VAR": envval}
     elif envsel == 3:
         d["env"] = {"MY_VAR": envval, "PATH": "/custom/bin"}
+    elif envsel == 4:
+        d["env"] = {"MY_VAR": envval, "LOG_LEVEL": "error"}  # switches the child's stderr handling, nothing else
     if tsel == 1:
         d["timeout"] = 30
     elif tsel == 2:
@@ -121,6 +123,8 @@ def _exp_env(envsel, envval):
         return ENVMOD.get_default_environment()
     if envsel == 2:
         return {"MY_VAR": envval}
+    if envsel == 4:
+        return {"MY_VAR": envval, "LOG_LEVEL": "error"}
     return {"MY_VAR": envval, "PATH": "/custom/bin"}
 
 
